@@ -181,7 +181,11 @@ def run_case(ctx, k, rng):
         A = {"path": lambda: OM.path(n1), "gnp.05": lambda: OM.gnp_connected(rng, n1, 0.05), "complete": lambda: OM.complete(n1),
              "bipartite": lambda: OM.complete_bipartite(int(rng.integers(1, 6)), n1), "star": lambda: OM.star(n1 + 1),
              "gnp.5": lambda: OM.gnp_connected(rng, n1, 0.5), "lollipop": lambda: OM.lollipop(n1, int(rng.integers(1, 6)))}[fa]()
-        if fa in ("path", "gnp.05") or rng.random() < 0.3:
+        if mode == "big" and rng.random() < 0.35:
+            A = OM.random_tree(rng, n1) if rng.random() < 0.5 else A      # a large graph against a relabelled copy of itself
+            B, _ = OM.relabel(rng, A)
+            fb = "big-iso"
+        elif fa in ("path", "gnp.05") or rng.random() < 0.3:
             B = OM.cycle(n2) if rng.random() < 0.5 else OM.random_tree(rng, n2)
             fb = "big"
         else:
@@ -251,7 +255,7 @@ def run_case(ctx, k, rng):
             trivial = max(abs(max(map(max, DX)) - max(map(max, DY))), int(len(A) != len(B)))
             if 2 * lb > trivial:
                 ctx.note("curvature test raised lb above the trivial bound")
-        if mode == "iso":
+        if mode == "iso" or fb == "big-iso":
             ctx.check("isomorphic graphs get lower bound 0", lb == 0.0, lower=lb, schedule=sname)
         judge_witnesses(ctx, lb, ub, cap, DX, DY, len(A), len(B))
     ctx.check("lower bound independent of the random stream", len(lbs) <= 1, lowers=sorted(lbs))
